@@ -166,6 +166,10 @@ func c17(c *Ctx) (*report.Result, error) {
 
 	// ---- O17.3
 	checkLegacyWrites(c, res)
+	res.RuleDoc["O17.6"] = "faithful repair: a failure link's message is rewritten with strings.ToValidUTF8(message, U+FFFD) exactly when it is not valid UTF-8, along the whole cause chain up to the depth bound"
+	if f := resolve(c, res, "O17.6", anchor{"proto/compat", "", "repairInvalidUTF8InFailure"}); f != nil {
+		checkFailureChainRepair(c, res, f, "O17.6")
+	}
 
 	// ---- O17.4
 	checkBlobRepairPath(c, res)
